@@ -94,14 +94,15 @@ func (t *Tokenizer) TokenizeWithLimits(limits TokenizerLimits, input *ast.Input)
 			lastWasSpread = true
 		case keyword.IDENT:
 			key := identkeyword.KeywordFromLiteral(input.ByteSlice(next.Literal))
-			switch key {
-			case identkeyword.FRAGMENT, identkeyword.QUERY, identkeyword.MUTATION, identkeyword.SUBSCRIPTION:
+			isDefinitionKeyword := key == identkeyword.FRAGMENT || key == identkeyword.QUERY || key == identkeyword.MUTATION || key == identkeyword.SUBSCRIPTION
+			// inside a selection set these keywords are ordinary field names
+			if isDefinitionKeyword && localDepth == 0 {
 				// When starting a new operation or fragment, add the local depth peak
 				// to global depth and reset local tracking
 				globalDepth += localDepthPeak
 				localDepth = 0
 				localDepthPeak = 0
-			default:
+			} else {
 				// localDepth > 0 means that we are inside a selection set, otherwise we're not counting fields
 				// if lastWasSpread, it means that the next token is an identifier of a fragment spread, we dismiss it
 				if localDepth > 0 && !lastWasSpread {
